@@ -2,12 +2,17 @@ import ArgoVerif.Proofs.WaitListAll
 import ArgoVerif.Proofs.WLPtr
 import ArgoVerif.Proofs.PopWaitC7
 /-
-Props.C19 — timed waits respect their deadline and never damage the waiter queue
-(wait-list protocol; the pointer-level list with stale `p_prev` links: section "pointer-level wait-list" below).
+Props.C19 — timed waits respect their deadline and never damage the waiter queue; blocking pool pops never lose a
+unit and return empty-handed in bounded time.  Three models:
 
-Every theorem is about all traces of Model.WaitList: any number of ULT / non-ULT, timed / untimed
-waiters and wakers, every interleaving of their atomic steps, every outcome of each `now >= deadline`
-comparison.  The same theorems serve C05 (cond), C08, C09 through the shared wait-list code.
+  * Model.WaitList (sections below up to `wl_wake_only_suspended`): the spinlock + wait-list *protocol* with an abstract
+    list — every trace: any number of ULT / non-ULT, timed / untimed waiters and wakers, every interleaving of their
+    atomic steps, every outcome of each `now >= deadline` comparison.  The same theorems serve C05 (cond), C08, C09
+    through the shared wait-list code.
+  * Model.WLPtr ("pointer-level wait-list"): `p_head` / `p_tail` / `p_next` / `p_prev` exactly as abti_waitlist.h writes
+    them — untimed enqueues never write `p_prev`, signals leave stale ones — for every operation sequence.
+  * Model.PopWait ("blocking pool pops"): producers and consumers of one FIFO / RANDWS pool (spinlock, `is_empty` fast
+    path, sleep-poll loop with the virtual clock) or FIFO_WAIT pool (mutex + condition variable), all interleavings.
 -/
 namespace ArgoVerif.Props.C19
 open ArgoVerif ArgoVerif.Model.WaitList
